@@ -253,10 +253,10 @@ def coupling_model_case(ctx, cfg, terms, eph=False, n_free=1, n_cells=2,
     if finite and 'export' in checks:
         from tenpy.algorithms import exact_diag as EDm
         O0 = orc0.H if orc0 is not None else O
+        # input class of the one known, unfixed defect of the term-list exporter (known_findings/C10.json); the former
+        # suffix ' (explicit_plus_hc model)' belonged to the defect fixed in 81a668b
         suffix = ''
-        if eph:
-            suffix = ' (explicit_plus_hc model)'
-        elif orc.jw_gap:
+        if orc.jw_gap:
             suffix = ' (Jordan-Wigner operators on non-adjacent MPS sites)'
         ctx.prove_eq(EDm.get_numpy_Hamiltonian(M, undo_sort_charge=True), O0,
                      'get_numpy_Hamiltonian(CouplingModel) == oracle in the standard basis' + suffix)
